@@ -85,6 +85,22 @@ def run(ctx):
                 return None
             start = T.affine(ix[2][1][4][0], atomize)
             good = start == Aff(0, {("len", ("path", "self", "bytes")): 1, ("path", "self", "remaining"): -1})
+        if not good:
+            # however the sub-slice is spelled (`bytes.split_at(len - remaining).1`, `&bytes[..][k..]`): located as (base, offset, length)
+            from engines import cursor as _cur
+            lb, lo_, ll = _cur.locate(tail)
+            if T.is_field(T.peel(lb), "bytes") and isinstance(lo_, Aff) and lo_.c == 0 and len(lo_.m) == 2:
+                pos_ = [a for a, c_ in lo_.m.items() if c_ == 1]
+                neg_ = [a for a, c_ in lo_.m.items() if c_ == -1]
+                def _is_len_bytes(a):
+                    if isinstance(a, tuple) and len(a) == 2 and a[0] == "len" and isinstance(a[1], tuple) and a[1] and a[1][0] == "path" and a[1][-1] == "bytes":
+                        return True
+                    return T.contains(a, lambda x: (T.is_call(x, r"Vec::<T, A>::len$|slice::<impl \[T\]>::len$") or (isinstance(x, tuple) and x and x[0] == "un" and x[1] == "PtrMetadata"))) and \
+                        T.contains(a, lambda x: T.is_field(x, "bytes")) and not T.contains(a, lambda x: T.is_field(x, "remaining"))
+                def _is_remaining(a):
+                    return T.is_field(T.peel(a), "remaining") or (isinstance(a, tuple) and a and a[0] == "path" and a[-1] == "remaining")
+                good = len(pos_) == 1 and len(neg_) == 1 and _is_len_bytes(pos_[0]) and _is_remaining(neg_[0])
+                start = lo_
         ctx.ob("C18.tail-handoff", good, "the TLS stream is seeded with %s (start %r); need bytes[len - remaining ..], the bytes received after the SSL request" % (term_str(tail)[:80], start),
                fn=sw.path, construct="tail-slice", where=sw.where(bb), sample={"rule": "tail-handoff", "start": repr(start)})
         # remaining := 0 on every path after the call
@@ -96,8 +112,12 @@ def run(ctx):
             zeroed = False
             after = False
             for blk in p.blocks:
-                for s in sw.blocks[blk]["stmts"]:
-                    if after and s["k"] == "assign" and place_fields(s["lhs"]) == ["remaining"]:
+                for si_, s in enumerate(sw.blocks[blk]["stmts"]):
+                    to_remaining = s["k"] == "assign" and place_fields(s["lhs"]) == ["remaining"]
+                    if s["k"] == "assign" and not to_remaining and s["lhs"]["p"] == ["deref"]:
+                        # `*remaining = 0` through a reference taken by destructuring `Self { remaining, .. } = self`
+                        to_remaining = T.is_field(T.peel(sw.origin_local(s["lhs"]["l"], blk, si_)), "remaining")
+                    if after and to_remaining:
                         zeroed = s["rv"]["k"] == "use" and (s["rv"]["op"].get("const") or {}).get("int") == "0"
                 if blk == bb:
                     after = True
@@ -354,6 +374,8 @@ def run(ctx):
         t = T.peel(t)
         if isinstance(t, tuple) and t[0] == "agg" and t[1] == "adt" and (t[2] or "").endswith("option::Option"):
             return t[3] == "None" or (t[3] == "Some" and len(t[4]) == 1 and isinstance(t[4][0], tuple) and t[4][0][0] == "somepayload" and _whole_chain(t[4][0][1]))
+        if T.is_call(t, r"Option<T> as std::ops::FromResidual<std::option::Option<std::convert::Infallible>>>::from_residual$"):
+            return True     # `x?` on an Option inside a function returning Option: the residual of an Option is always None
         return T.is_call(t, r"::peer_certificates$")
     nret = 0
     for q in enumerate_paths(tc):
@@ -371,6 +393,36 @@ def run(ctx):
             o = fi.origin_rvalue(s_["rv"], bb, i_, 0)
             ctx.ob("C18.init-order", T.is_call(T.peel(o), r"::tls_certs$"), "the certificate list stored for the shim is %s, not the connection's tls_certs()" % term_str(o)[:120],
                    fn=fi.path, construct="certs-stored", where=fi.where(bb, i_))
+    # ... or the context is built in one piece (`AuthenticationContext { username, tls_client_certs: certs }`): every alternative that can
+    # flow into the field is the connection's tls_certs() or None, and tls_certs() is among them
+    def _alts(t, d=0):
+        t = T.peel(t)
+        if isinstance(t, tuple) and t and t[0] == "phi" and d < 6:
+            out = []
+            for a in t[1]:
+                out += _alts(a, d + 1)
+            return out
+        if isinstance(t, tuple) and t and t[0] == "field" and isinstance(t[1], tuple) and t[1] and t[1][0] == "phi" and d < 6:
+            # a field of a tuple that is itself chosen between alternatives: (user, certs) = if tls { (.., tls_certs()) } else { (.., None) }
+            out = []
+            for a in t[1][1]:
+                a = T.peel(a)
+                if isinstance(a, tuple) and a and a[0] == "agg" and len(a) > 4 and isinstance(t[3], int) and t[3] < len(a[4]):
+                    out += _alts(a[4][t[3]], d + 1)
+                else:
+                    out.append(("unknown", "alt"))
+            return out
+        return [t]
+    for bb, i_, s_ in fi.stmts():
+        rv_ = s_.get("rv") or {}
+        if s_["k"] == "assign" and rv_.get("k") == "agg" and rv_.get("ak") == "adt" and (rv_.get("adt") or "").endswith("AuthenticationContext") and "tls_client_certs" in (rv_.get("fnames") or []):
+            o = fi.origin_op(rv_["fields"][rv_["fnames"].index("tls_client_certs")], bb, i_)
+            alts = _alts(o)
+            good = all(T.is_call(a, r"::tls_certs$") or (isinstance(a, tuple) and a and a[0] == "agg" and a[3] == "None") for a in alts)
+            if any(T.is_call(a, r"::tls_certs$") for a in alts):
+                nstore += 1
+            ctx.ob("C18.init-order", good, "the certificate list the context is built with is %s, not the connection's tls_certs() (or None before the upgrade)" % term_str(o)[:120],
+                   fn=fi.path, construct="certs-stored", where=fi.where(bb, i_), nontrivial=False)
     ctx.floor("C18.init-order", "stores of the client certificates into the authentication context", nstore, 1)
 
     # `commands are served exactly as over plaintext` presupposes the same wire layer under the TLS stream (a short write
